@@ -418,6 +418,12 @@ func vfC04Modes() []vfC04Mode {
 	ms = append(ms, vfC04Mode{Name: "13-direct", Cfg: c})
 	c.HelloVerify = true
 	ms = append(ms, vfC04Mode{Name: "13-hrr", Cfg: c})
+	// connection IDs on both sides (return routability checking is then negotiated too): both are negotiated parameters
+	for _, hv := range []bool{true, false} {
+		c = vfBaseCfg(vfSuiteByName("ECDSA-GCM128"), "ecdsa")
+		c.CIDc, c.CIDs, c.HelloVerify = 4, 6, hv
+		ms = append(ms, vfC04Mode{Name: fmt.Sprintf("12-cid-hv%v", hv), Cfg: c})
+	}
 	// both endpoints accept DTLS 1.2 and 1.3: the version itself is a negotiated parameter an attacker may try to steer
 	c = vfBaseCfg(vfSuiteInfo{Name: "default", Auth: "ecdsa"}, "ecdsa")
 	c.CVer, c.SVer, c.HelloVerify, c.Curves = "dual", "dual", true, 1
@@ -485,9 +491,10 @@ func vfNegotiated(p *vfPair) string {
 		return "?"
 	}
 
-	return fmt.Sprintf("ver=%s/%s suite=%04x/%04x %s/%s alpn=%q/%q srtp=%d/%d cid=%d,%d/%d,%d sni=%q",
+	return fmt.Sprintf("ver=%s/%s suite=%04x/%04x %s/%s alpn=%q/%q srtp=%d/%d cid=%d,%d/%d,%d rrc=%v/%v sni=%q",
 		cs.Version, ss.Version, cs.Suite, ss.Suite, ems(p.C.Conn), ems(p.S.Conn), cs.ALPN, ss.ALPN, cs.SRTP, ss.SRTP,
-		len(cs.LocalCID)/2, len(cs.RemoteCID)/2, len(ss.LocalCID)/2, len(ss.RemoteCID)/2, vfCommon(p.S.Conn).ServerName)
+		len(cs.LocalCID)/2, len(cs.RemoteCID)/2, len(ss.LocalCID)/2, len(ss.RemoteCID)/2,
+		vfCommon(p.C.Conn).RRCNegotiated, vfCommon(p.S.Conn).RRCNegotiated, vfCommon(p.S.Conn).ServerName)
 }
 
 // vfC04Run executes one case inside a bubble.
